@@ -165,3 +165,8 @@ Qed.
 Lemma midpoint_1d : forall x g s : Z, g < s ->
   ((x - g) * (x - g) <= (x - s) * (x - s) <-> 2 * x <= g + s).
 Proof. intros. split; intros; nia. Qed.
+
+(* the principle of a floating-point filter: farther from zero than the error bound => sign is exact *)
+Lemma filter_principle (exact computed errb : Z) :
+  Z.abs (computed - exact) <= errb -> errb < Z.abs computed -> Z.sgn computed = Z.sgn exact.
+Proof. intros H1 H2. lia. Qed.
